@@ -652,12 +652,12 @@ func tailSubs(s []submission) []submission {
 
 func TestC08Minter(t *testing.T) {
 	(&pbt.Check{
-		ID:   "C08",
-		Part: "minter",
-		Rule: "full Minter loop with the connector's own package main (compiled in place through go test -overlay): 1..4 validators each run the connector's loop body (relayMinterEvents, relayBatches, relayValsets) against the hub's real query service (in-memory gRPC) and a scripted Minter chain whose multisig account follows Minter's rule (distinct member signatures, weight sum >= threshold, account nonce in order) and is the judge; histories of deposits, sends, batch requests, stake changes, connector runs of single validators or all, hub and Minter blocks; a submission the hub records as confirmed by >= threshold weight and next in order must be accepted, every hub-recorded confirmation must be a valid signature over the transaction assembled from the hub's data, nothing under-confirmed or differing from the hub's batch / signer set may execute, payouts equal the batches' amounts, and after settling rounds hub and chain agree on event nonce, signer set and executed batches; non-trivial = >=1 batch and >=1 signer-set update executed on the chain; distinct = distinct case JSON",
-		Gen:  genLoopCase,
-		New:  func() interface{} { return &LoopCase{} },
-		Run:  runLoopCase,
+		ID:          "C08",
+		Part:        "minter",
+		Rule:        "full Minter loop with the connector's own package main (compiled in place through go test -overlay): 1..4 validators each run the connector's loop body (relayMinterEvents, relayBatches, relayValsets) against the hub's real query service (in-memory gRPC) and a scripted Minter chain whose multisig account follows Minter's rule (distinct member signatures, weight sum >= threshold, account nonce in order) and is the judge; histories of deposits, sends, batch requests, stake changes, connector runs of single validators or all, hub and Minter blocks; a submission the hub records as confirmed by >= threshold weight and next in order must be accepted, every hub-recorded confirmation must be a valid signature over the transaction assembled from the hub's data, nothing under-confirmed or differing from the hub's batch / signer set may execute, payouts equal the batches' amounts, and after settling rounds hub and chain agree on event nonce, signer set and executed batches; non-trivial = >=1 batch and >=1 signer-set update executed on the chain; distinct = distinct case JSON",
+		Gen:         genLoopCase,
+		New:         func() interface{} { return &LoopCase{} },
+		Run:         runLoopCase,
 		Assumptions: []string{"Minter's multisig verification is the model in the scripted node (weights, threshold, nonce, duplicate signers), as documented for Minter's multisig accounts", "a validator outside the bonded set does not run its connector and resynchronises (start-up sequence of main()) when it is back"},
 	}).Main(t)
 }
